@@ -862,7 +862,7 @@ func main() {
 	kit.Main(&kit.Check{
 		ID:    "C09",
 		Level: "model_checking",
-		Rule:  "complete grid: 127 types (the 17 basic kinds incl. uintptr and both complex kinds, a named type of each, []byte, named []byte, [3]byte, implementers of fmt.Stringer (struct, pointer receiver, string-, slice- and func-kinded), native.EnvStringer, error (struct, pointer receiver, map-kinded, errors.New), native.HTML/CSS/JS/JSON/Markdown and an implementer of each of their ten stringer interfaces, pointers, slices, arrays, non-empty maps keyed by every basic kind, by named string/int, by types implementing only error (a struct and the interface error itself), only fmt.Stringer (struct, pointer, string-kinded, the interface), only native.EnvStringer, by interface and array keys, the same maps nested in a struct field, a slice, a map element and behind a pointer, structs, funcs, chans, time.Time, *time.Time, time.Duration, unsafe.Pointer) x 27 show sites covering the 14 contexts (text; HTML; tag; quoted attribute with both quotes; unquoted attribute; CSS and CSS string in .css and <style>; JS and JS string in .js and <script>; JSON and JSON string in .json and <script type=application/ld+json>; Markdown; tab and spaces code block; HTML inside Markdown) and the URL states (path, query, unquoted, srcset, Markdown URL) x {global of the static type, boxed in any, boxed in error, boxed in fmt.Stringer}, each with the zero value and two non-zero values; plus a nil any / error / fmt.Stringer in every site; plus templates with TWO shows of the same global (every ordered pair of the 27 sites, 729, in one file when both sites live in the same kind of file, else the second site is a partial rendered after the first) for one representative type per acceptance pattern (the row of accepted/rejected over the 27 sites; 10 patterns on the current tree, listed in the evidence) in the quick tier and for all 127 types in the thorough tier: if the pair builds Run must not fail, and the pair must build exactly when both sites alone accept the type. The context of every site is verified against the disassembled Show instruction. Non-trivial = BuildTemplate was called for the cell (rejected at build, or accepted and run 3 times); cells whose type does not implement the boxing interface are n/a",
+		Rule:  "complete grid: 143 types (the 17 basic kinds incl. uintptr and both complex kinds, a named type of each, []byte, named []byte, [3]byte, implementers of fmt.Stringer (struct, pointer receiver, string-, slice- and func-kinded), native.EnvStringer, error (struct, pointer receiver, map-kinded, errors.New), native.HTML/CSS/JS/JSON/Markdown and an implementer of each of their ten stringer interfaces, pointers, slices, arrays, non-empty maps keyed by every basic kind, by named string/int, by types implementing only error (a struct and the interface error itself), only fmt.Stringer (struct, pointer, string-kinded, the interface), only native.EnvStringer, by interface and array keys, the same maps nested in a struct field, a slice, a map element and behind a pointer, structs, funcs, chans, time.Time, *time.Time, time.Duration, unsafe.Pointer) x 27 show sites covering the 14 contexts (text; HTML; tag; quoted attribute with both quotes; unquoted attribute; CSS and CSS string in .css and <style>; JS and JS string in .js and <script>; JSON and JSON string in .json and <script type=application/ld+json>; Markdown; tab and spaces code block; HTML inside Markdown) and the URL states (path, query, unquoted, srcset, Markdown URL) x {global of the static type, boxed in any, boxed in error, boxed in fmt.Stringer}, each with the zero value and two non-zero values; plus a nil any / error / fmt.Stringer in every site; plus (round 2) maps, byte slices and slices that are showable ONLY through their String/Error/HTML method while their keys or elements are not showable (map[struct]int, map[[2]int]string, []byte and []struct{func} with methods), alone, behind a pointer, in a struct, a slice and a map, and pointers to and structs/slices of []byte; every type x 16 further URL positions (directly after a shown value that has a query, after it and &x= / ?x= / ?, first before another value or before ?x=1, in the query and the fragment, unquoted, form action, img src, second srcset candidate, query of two srcset candidates, Markdown URL query) x the four ways of declaring the global; Scriggo-defined types: {% type T U %} for 37 underlying types U (every basic kind, html, js, slices incl. []byte, arrays, maps incl. defined key and element types, structs with fields of every kind, unexported and empty structs, pointer, func, chan, the interfaces error, Stringer, EnvStringer, HTMLStringer and any, the host types Duration, Time, a Stringer struct and a named []byte) x {zero, non-zero} x {the value, a pointer, in an any, in a slice, field of a defined struct, map element, map in an any, pointer in an any} x the 27 sites; plus templates with TWO shows of the same global (every ordered pair of the 27 sites, 729, in one file when both sites live in the same kind of file, else the second site is a partial rendered after the first) for one representative type per acceptance pattern (the row of accepted/rejected over the 27 sites; 10 patterns on the current tree, listed in the evidence) in the quick tier and for all 127 types in the thorough tier: if the pair builds Run must not fail, and the pair must build exactly when both sites alone accept the type. The context of every site is verified against the disassembled Show instruction. Non-trivial = BuildTemplate was called for the cell (rejected at build, or accepted and run 3 times); cells whose type does not implement the boxing interface are n/a",
 		Assumptions: []string{
 			"a failure is ANY error returned by Run for these one-show templates (the values avoid the documented data errors: no unclosed HTML comment in Markdown)",
 			"pointer-receiver methods of the table's types are safe on a nil receiver; a nil *T whose T has a value-receiver String/Error/HTML/… method (e.g. a nil *time.Time) is the zero value of an accepted static type: Run panicking on it (instead of showing it or returning an error) is reported under one key",
